@@ -13,8 +13,8 @@ COMMON_ASSUMPTIONS = [
 
 ARITH_RULE = ("all 506 layouts; operands: every value of the 8-bit layouts (all 65536 pairs), every value of the 16-bit layouts for unary "
               "operations, boundary alphabet B(w, frac) (powers of two and neighbours, limb/carry combinations, layout-relative values, "
-              "extremes; full square BxB for binary operations, plus related pairs (k*y + {-1,0,1}, y) in both orders for 12 factors k, plus, for unary operations, ties at every integer part of the alphabet) otherwise; every form the API provides incl. by-reference and assigning "
-              "operators; a state is one (layout, operand tuple), a transition one executed call compared with exact integer arithmetic; "
+              "extremes; full square BxB for binary operations, plus related pairs (k*y + {-1,0,1}, y) in both orders for 12 factors k, plus, for unary operations, ties at every integer part of the alphabet; quick tier: also powers of two at every exponent with essential partners and with the partners that put the product / quotient on the overflow / underflow boundary) otherwise; every form the API provides incl. by-reference and assigning "
+              "operators, integer-on-the-left products, the inherent bodies of the deprecated rem_int forms, Sum / Product of sequences of at most two elements, the limits and layout constants of each type (C02); the plain forms are judged where the exact result is representable; a state is one (layout, operand tuple), a transition one executed call compared with exact integer arithmetic; "
               "non-trivial = at least one non-zero operand and at least one judged comparison")
 
 CROSS_RULE = ("ordered (source, destination) layout pairs through the public API: all 18x18 pairs of 8-bit layouts with every source value "
@@ -23,9 +23,9 @@ CROSS_RULE = ("ordered (source, destination) layout pairs through the public API
 PRIM_RULE = ("every compiled layout (90 quick: all 8-bit layouts + boundary fractional-bit counts; all 506 thorough) against i8..i128, "
              "isize, u8..u128, usize, bool, f32, f64 in both directions and both operand orders; integer values: all of 8/16-bit, "
              "boundary alphabet otherwise; floats: every exponent (f32; f64 thorough, quick: +-140 around the bias and the extremes) x "
-             "structured mantissas x both signs, incl. zeros, subnormals, largest finite binade, infinities, NaNs; comparisons also against the floor of the value +-1 (integers) and the nearest float +-1, +-2 ulp; ")
+             "structured mantissas x both signs, incl. zeros, subnormals, largest finite binade, infinities, NaNs; comparisons also against the floor of the value +-1 (integers) and the nearest float +-1, +-2 ulp; float -> fixed conversions also on floats related to the layout ((4v + q)/4 ulp for q = -3..3 around the extremes, 0, 1 and every ninth boundary value, with their float neighbours); From / LossyFrom existence and value for every one of the 506 layouts also in the quick tier (probe-only table, with float conversions and comparisons on thin sets), LossyFrom between primitives; ")
 
-TRANS_RULE = """type pairs S->D: I9F23, I9F55, I16F48, I32F32, I41F23, I9F119, I40F88, I64F64, I96F32, I105F23 onto themselves, I9F23->{I32F32, I64F64, I9F55, I10F54, I96F32}, I32F32->I64F64, I16F48->I40F88, and for sqrt U9F23, U9F55, U32F32, U9F119, U64F64, U96F32, U105F23, U9F23->U64F64, U32F32->U96F32; operands: boundary alphabet, integers 0..300 and halves, neighbourhoods of 1 and 2, the representable neighbours of 2^(k + j/8) in every octave (thorough j/32), a grid of 2^g values per octave over the whole range of the type (g = 5 quick / 9 thorough; 3 / 7 for 128-bit sources), both signs; thorough: every one of the 2^32 bit patterns of I9F23 and U9F23; second engine (transx): every other supported layout onto itself (all 64-bit types with 9..41 integer bits and all 128-bit types with 9..105 integer bits: 121 further signed pairs, 134 unsigned ones for sqrt), 57 widening pairs (I9F23 into every supported 64-bit layout and 12 128-bit ones; six 64-bit sources into the 128-bit layouts with equal fractional bits, equal integer bits and in between), 9 unsigned-to-signed pairs, with thinner operand sets in the quick tier (boundary alphabet, integers 0..20, neighbours of 2^(k + j/4), 2 grid values per octave; pow/powi on every 7th/11th of those plus the essential values) and the quick-tier sets above in the thorough tier; """
+TRANS_RULE = """type pairs S->D: I9F23, I9F55, I16F48, I32F32, I41F23, I9F119, I40F88, I64F64, I96F32, I105F23 onto themselves, I9F23->{I32F32, I64F64, I9F55, I10F54, I96F32}, I32F32->I64F64, I16F48->I40F88, and for sqrt U9F23, U9F55, U32F32, U9F119, U64F64, U96F32, U105F23, U9F23->U64F64, U32F32->U96F32; operands: boundary alphabet, integers 0..300 and halves, neighbourhoods of 1 and 2, 1 +- 2^-k for every k, the representable neighbours of 2^(k + j/8) in every octave (thorough j/32), a grid of 2^g values per octave over the whole range of the type (g = 5 quick / 9 thorough; 3 / 7 for 128-bit sources), both signs; thorough: every one of the 2^32 bit patterns of I9F23 and U9F23; second engine (transx): every other supported layout onto itself (all 64-bit types with 9..41 integer bits and all 128-bit types with 9..105 integer bits: 121 further signed pairs, 134 unsigned ones for sqrt), 57 widening pairs (I9F23 into every supported 64-bit layout and 12 128-bit ones; six 64-bit sources into the 128-bit layouts with equal fractional bits, equal integer bits and in between), 9 unsigned-to-signed pairs, with thinner operand sets in the quick tier (boundary alphabet, integers 0..20, neighbours of 2^(k + j/4), 2 grid values per octave; pow/powi on every 7th/11th of those plus the essential values) and the quick-tier sets above in the thorough tier; """
 TRIG_RULE = ("types I9F23, I9F55, I16F48, I32F32, I41F23, I9F119, I40F88, I64F64, I96F32, I105F23 (second engine: the other 121 supported 64- and 128-bit layouts, quick tier with a 2^-2 grid and a reduced neighbourhood set); angles: every multiple of 2^-5 (thorough 2^-10) in [-200, 200] "
              "([-100, 100] for tan), boundary alphabet inside the range, the neighbourhood (0, +-1, +-2, +-100 ulp, +-2^-m for m = 1..24) of each multiple of pi/2 up "
              "to 130 pi/2; thorough: every I9F23 angle in the range (3.36e9 for sin and cos, 1.68e9 for tan); ")
@@ -58,7 +58,7 @@ PROPS = {
         "require": [('sqrt', 'err'), ('log2', 'err'), ('pow', 'err'), ('exp', 'err'), ('powi', 'err'), ('powi', 'value'), ('tan', 'value')],
         "title": "Result-returning math functions are total: Ok or Err, never a panic",
         "stages": [{"driver": "trans"}, {"driver": "transx"}],
-        "rule": TRANS_RULE + "pow: bases x exponents from thinner grids; powi: bases x {|n| <= 64, +-2^k, +-(2^k+-1), i32::MIN, MIN+1, MAX, MAX-1} under an iteration budget (a call cut by the budget is counted, not judged); " + TRIG_RULE + "a state is one (function, type pair, operand tuple), a transition one call under catch_unwind with the tick budget; judged: no unwinding, Err for sqrt of a negative, log of a non-positive, fractional power of a negative base; tan only where the reference says |tan x| <= 64",
+        "rule": TRANS_RULE + "pow: bases x exponents from thinner grids; powi: bases x {|n| <= 64, +-2^k, +-(2^k+-1), i32::MIN, MIN+1, MAX, MAX-1} under an iteration budget (a call cut by the budget is counted, not judged); " + TRIG_RULE + "a state is one (function, type pair, operand tuple), a transition one call under catch_unwind with the tick budget; judged: no unwinding, Err for sqrt of a negative, log of a non-positive, fractional power of a negative base, and for exp / pow / powi results that do not fit (true value less the permitted error beyond twice the largest value of the type); tan only where the reference says |tan x| <= 64",
         "assumptions": ["powi with |n| up to 2^31 is linear in |n| by design; calls that exceed the iteration budget (30 000 quick, 250 000 thorough) are cut and reported as unexplored"],
     },
     "C13": {
@@ -100,8 +100,8 @@ PROPS = {
                  "forms, 10 binary operators/methods with every second operand in 6 forms, 5 integer-operand operators with every integer, to_num into 20 "
                  "targets), plus all operation sequences of length 3 over a 12-operation alphabet from every state (implementation chain vs model chain); wider "
                  "layouts: the same transitions from the boundary alphabet with second operands from the boundary alphabet; for all layouts Sum/Product over "
-                 "sequences of length 0, 1, 2 and 4, from_num from 21 source types (integers, bool, f32/f64 alphabets, 6 fixed types), FromStr and "
-                 "from_str_{binary,octal,hex}; a transition is one executed call compared with the exact result reduced modulo 2^width (shift amounts modulo the width); "
+                 "sequences of length 0, 1, 2 and 4, from_num from 21 source types (integers, bool, f32/f64 alphabets, 6 fixed types), From<F>, the limits of Wrapping<F>, FromStr and "
+                 "from_str_{binary,octal,hex} on the complete literal families of the parsing check (ties and their neighbourhoods in four radices, wrap-around and limb-carry literals); a transition is one executed call compared with the exact result reduced modulo 2^width (shift amounts modulo the width); "
                  "panic expected only for a zero divisor and non-finite floats"),
         "level_text": "explicit-state model checking of Wrapping<F> on the real code: for each 8-bit layout the complete reachable state graph (256 states) with every transition compared against arithmetic modulo 2^8, for wider layouts boundary states and operands; both build profiles",
     },
@@ -134,7 +134,7 @@ PROPS = {
         "rule": ("all 506 layouts: every value of the 8-bit layouts (thorough: 16-bit too), boundary alphabet and values next to round decimals otherwise x "
                  "{Display, Debug, Binary, Octal, LowerHex, UpperHex} x 16 precisions (none, 0..200): digits compared with the exact expansion rounded half-even "
                  "at the number of digits printed, exactness for power-of-two radices, Display -> FromStr round trip; and for a fixed value set per layout the "
-                 "full product of 6 traits x {+} x {#} x {0} x 7 alignment/fill x 6 widths x 3 precisions against the padding rule pad(sign ++ prefix ++ body), and three specs per trait written into sinks that refuse after k bytes (no unwinding); "
+                 "full product of 6 traits x {+} x {#} x {0} x 7 alignment/fill x 6 widths x 3 precisions against the padding rule pad(sign ++ prefix ++ body) (Display of Wrapping<F> rendered next to it and required to be identical), the Display round trip also on the values the decimal literal families of the parsing check round to, and three specs per trait written into sinks that refuse after k bytes (no unwinding); "
                  "a state is one (layout, value, format spec), a transition one formatting (or parse-back) call; non-trivial = value not zero"),
         "assumptions": ["the padding rule is that of core::fmt::Formatter::pad_integral (sign, then prefix, zero flag pads after the prefix and overrides fill/alignment, default right alignment)"],
     },
